@@ -12,10 +12,10 @@ and the extracted executable reachability (specification) on the same script.
                  model survivors  is a subset of  implementation survivors
                  (conservative stack scanning may retain more than the model, never less)
 """
-import os, json, re
+import os, json, re, time
 import vlib
 
-REGK = 'SRBALTEU'
+REGK = 'SRBALTEUYZ'
 F1_SIG = 'mark-recursion-depth'
 MAX_CHAIN_REGULAR = 20000
 
@@ -41,7 +41,7 @@ class Sim:
     def ptrs(self, i):
         nd = self.n[i]
         if nd['k'] in 'SsRrB': return [x for x in nd['f'] if x]
-        if nd['k'] in 'TE': return list(nd['kv'].values())
+        if nd['k'] in 'TEYZ': return list(nd['kv'].values())
         return list(nd['items'])
 
     def _grow(self, seen, start):
@@ -168,8 +168,9 @@ class Sim:
     def insert(self, i, t, key=None):
         nd = self.n[i]
         replaced = False
-        if nd['k'] in 'TE':
-            if key is None: key = self.rng.randrange(0, 64)
+        if nd['k'] in 'TEYZ':
+            if nd['k'] in 'YZ': key = t                  # the key IS the pointer
+            elif key is None: key = self.rng.randrange(0, 64)
             replaced = key in nd['kv']
             nd['kv'][key] = t
         else:
@@ -180,7 +181,7 @@ class Sim:
 
     def remove(self, i):
         nd = self.n[i]
-        if nd['k'] in 'TE':
+        if nd['k'] in 'TEYZ':
             if not nd['kv']: return False
             key = self.rng.choice(sorted(nd['kv'])); del nd['kv'][key]
         else:
@@ -207,7 +208,9 @@ class Sim:
     def delete(self, i):
         self.stack.discard(i); self.dead.add(i); self.emit('X%d' % i); self.dirty()
 
-    def collect(self, narrow=False): self.emit('H' if narrow else 'G')
+    def collect(self, narrow=False):
+        # three kinds of forced collection: full stack scan, narrowed scan, exact stack pass
+        self.emit(self.rng.choice('HE') if narrow else self.rng.choice('GGE'))
     def burst(self, n): self.emit('M%d' % n)
 
     def link(self, holder, t):
@@ -225,7 +228,7 @@ class Sim:
 
 def attach(s, t, rng, via=None):
     """make t reachable through a fresh or existing holder chosen at random; returns holder"""
-    k = via or rng.choice('SRALTEU')
+    k = via or rng.choice('SRALTEUYZ')
     h = s.new(k)
     s.link(h, t)
     return h
@@ -241,7 +244,7 @@ def root_somehow(s, i, rng, tlsslot=None):
         slot = tlsslot if tlsslot is not None else rng.randrange(1, 9)
         s.tls_set(slot, i); s.drop(i)
         return ('tls', slot)
-    hk = rng.choice('RSALTEU')
+    hk = rng.choice('RSALTEUYZ')
     h = s.new(hk, root=True)
     s.link(h, i); s.drop(i); s.drop(h)
     return ('holder', h)
@@ -264,8 +267,10 @@ def unroot(s, r):
 def gen_random(rng, maxnodes, maxops):
     s = Sim(rng)
     nops = rng.randrange(8, maxops)
-    kinds = 'SSRRBALTEUU' + ('sru' if rng.random() < .4 else '')
-    HOLD = 'SRALTEUsru'
+    kinds = 'SSRRBALTEYZUU' + ('sru' if rng.random() < .4 else '')
+    HOLD = 'SRALTEYZUsru'
+    pc = min(.08, 40.0 / nops)           # about 40 forced collections per script at most
+    pb = min(.05, 25.0 / nops)
     for _ in range(nops):
         r = rng.random()
         if r < .30 and len(s.n) < maxnodes:
@@ -284,12 +289,12 @@ def gen_random(rng, maxnodes, maxops):
         elif r < .38 and len(s.n) < maxnodes:
             # a Box with a freshly made, exclusively owned target
             b = s.new('B')
-            t = s.new(rng.choice('SRALTEU'))
+            t = s.new(rng.choice('SRALTEYZU'))
             for _ in range(rng.randrange(0, 2)):
                 x = s.pick_target(t)
                 if x is not None and x != t: s.link(t, x)
             s.store(b, 0, t); s.owned.add(t); s.drop(t)
-            h = s.pick_subject('SRALTEU', avoid=(b, t))
+            h = s.pick_subject('SRALTEYZU', avoid=(b, t))
             if h is not None and rng.random() < .8: s.link(h, b)
             if rng.random() < .7: s.drop(b)
         elif r < .55:
@@ -298,7 +303,7 @@ def gen_random(rng, maxnodes, maxops):
                 t = s.pick_target(h)
                 if t is not None: s.link(h, t)
         elif r < .66:
-            h = s.pick_subject('ALTEUu')
+            h = s.pick_subject('ALTEYZUu')
             if h is not None: s.remove(h)
         elif r < .72:
             h = s.pick_subject('SRs')
@@ -312,11 +317,11 @@ def gen_random(rng, maxnodes, maxops):
             if t is not None: s.tls_set(rng.randrange(1, 6), t)
         elif r < .855 and len(s.n) < maxnodes:
             # copy of a usable object none of whose targets is exclusively owned
-            c = s.pick(lambda i: s.n[i]['k'] in 'SRALTEU' and s.usable(i)
+            c = s.pick(lambda i: s.n[i]['k'] in 'SRALTEYZU' and s.usable(i)
                        and all(t not in s.owned and s.usable(t) for t in s.ptrs(i)))
             if c is not None:
                 j = s.copy(c)
-                h = s.pick_subject('SRALTEU', avoid=(j,))
+                h = s.pick_subject('SRALTEYZU', avoid=(j,))
                 if h is not None and rng.random() < .6: s.link(h, j)
                 if rng.random() < .6: s.drop(j)
         elif r < .87:
@@ -324,10 +329,15 @@ def gen_random(rng, maxnodes, maxops):
             if c:
                 i = rng.choice(c)
                 if s.indegree(i) == 0: s.delete(i)
-        elif r < .95:
+        elif r < .87 + pc:
             s.collect(narrow=rng.random() < .5)
-        else:
+        elif r < .87 + pc + pb:
             s.burst(rng.choice([1, 3, 10, 40, 150]))
+        else:
+            h = s.pick_subject(HOLD)
+            if h is not None:
+                t = s.pick_target(h)
+                if t is not None: s.link(h, t)
     s.collect(); s.collect(narrow=True)
     return s.script()
 
@@ -346,7 +356,7 @@ def gen_chain(rng, length, kinds=None):
     """a chain of `length` links, rooted at its head by one of the three root kinds; collect with the
     root (everything must survive), then without"""
     s = Sim(rng)
-    kinds = kinds or rng.choice(['R', 'S', 'RS', 'RSALTEU', 'U', 'AL', 'TE', 'B'])
+    kinds = kinds or rng.choice(['R', 'S', 'RS', 'RSALTEUYZ', 'U', 'AL', 'TE', 'YZ', 'B'])
     prev = s.new(rng.choice('SR'))
     for _ in range(length):
         k = rng.choice(kinds)
@@ -388,7 +398,7 @@ def gen_tuple_dag(rng, depth, width=2):
 def gen_cycle(rng, n):
     """a cycle through nodes of arbitrary kinds (length n >= 1: self reference), hanging off a root"""
     s = Sim(rng)
-    ids = [s.new(rng.choice('SRALTEU')) for _ in range(n)]
+    ids = [s.new(rng.choice('SRALTEYZU')) for _ in range(n)]
     for a, b in zip(ids, ids[1:] + ids[:1]): s.link(a, b)
     extra = s.new(rng.choice('SR'))
     s.link(ids[rng.randrange(n)], extra); s.drop(extra)
@@ -405,7 +415,7 @@ def gen_cycle(rng, n):
 def gen_churn(rng, nkeep, nchurn):
     """containers grow (rehash / reallocation), shrink, while collections and bursts happen"""
     s = Sim(rng)
-    c = s.new(rng.choice('ALTEU'))
+    c = s.new(rng.choice('ALTEYZU'))
     r = root_somehow(s, c, rng)
     members = []
     for step in range(nchurn):
@@ -453,6 +463,12 @@ def gen_raw(rng, n):
 
 
 def gen_case(rng, size):
+    c = gen_case1(rng, size)
+    # one case in five runs in a freshly started Cello Thread (its own collector, stack bottom and TLS table)
+    return '@ ' + c if rng.random() < .2 else c
+
+
+def gen_case1(rng, size):
     r = rng.random()
     if r < .50: return gen_random(rng, size, max(12, size * 3))
     if r < .62: return gen_chain(rng, rng.choice([1, 2, 5, 20, 100, min(size * 2, 400)]))
@@ -478,6 +494,7 @@ def valid_script(case):
             if not tok: continue
             c, rest = tok[0], tok[1:]
             v = [int(x) for x in re.findall(r'\d+', rest)]
+            if c == '@': continue
             if c == 'N':
                 if not owned_ok() or v[0] in s.n: return False
                 k = re.search(r'[A-Za-z]', rest).group(0)
@@ -485,7 +502,7 @@ def valid_script(case):
                 s.new(k, root=rest.endswith('!'))
             elif c == 'C':
                 i, src = v
-                if not owned_ok() or i in s.n or not s.usable(src) or s.n[src]['k'] not in 'SRALTEU': return False
+                if not owned_ok() or i in s.n or not s.usable(src) or s.n[src]['k'] not in 'SRALTEYZU': return False
                 if any(t in s.owned or not s.usable(t) for t in s.ptrs(src)): return False
                 s.nid = i - 1
                 s.copy(src)
@@ -500,13 +517,14 @@ def valid_script(case):
                 s.store(i, slot, t)
             elif c == 'I':
                 i, key, t = v
-                if not s.usable(i) or not s.usable(t) or not ok_edge(s, i, t) or s.n[i]['k'] not in 'ALTEUu': return False
+                if not s.usable(i) or not s.usable(t) or not ok_edge(s, i, t) or s.n[i]['k'] not in 'ALTEYZUu': return False
+                if s.n[i]['k'] in 'YZ' and key != t: return False
                 s.insert(i, t, key=key)
             elif c == 'D':
                 i, key = v
                 nd = s.n[i]
                 if not s.usable(i): return False
-                if nd['k'] in 'TE':
+                if nd['k'] in 'TEYZ':
                     if key not in nd['kv']: return False
                     del nd['kv'][key]
                 else:
@@ -527,7 +545,7 @@ def valid_script(case):
                 i = v[0]
                 if i not in s.stack or not s.isreg(i) or i in s.owned or s.indegree(i) or s.n[i]['k'] == 'B': return False
                 s.delete(i)
-            elif c in 'GHM':
+            elif c in 'GHEM':
                 if not owned_ok(): return False
             else: return False
     except (KeyError, IndexError, ValueError, AttributeError):
@@ -536,7 +554,19 @@ def valid_script(case):
 
 
 # ----------------------------------------------------------------------------- transcripts
+_PARSED = {}
+
+
 def parse(line):
+    """memoised parse1"""
+    r = _PARSED.get(line)
+    if r is None:
+        if len(_PARSED) > 4000: _PARSED.clear()
+        r = _PARSED[line] = parse1(line)
+    return r
+
+
+def parse1(line):
     """-> list of observations {'op','m','a','f','c','r','t','x'} (sets of ids) ; a trailing marker
     (CRASH / TIMEOUT / EXIT / OUTOFFUEL) becomes {'op': marker}"""
     out = []
@@ -544,7 +574,7 @@ def parse(line):
         part = part.strip()
         if not part: continue
         f = part.split(' ')
-        if f[0] in ('G', 'H', 'M'):
+        if f[0] in ('G', 'H', 'E', 'M'):
             o = {'op': f[0]}
             for kv in f[1:]:
                 if '=' not in kv: continue
@@ -574,7 +604,7 @@ def oracle(case, impl, spec):
         return None             # nothing observed / not a valid program (only arises while shrinking)
     pi, ps = parse(impl), parse(spec)
     for n, o in enumerate(pi):
-        if o['op'] not in ('G', 'H', 'M'):
+        if o['op'] not in ('G', 'H', 'E', 'M'):
             return 'collection %d did not run to completion: %s' % (n, o['op'])
     if len(pi) != len(ps):
         return 'implementation transcript has %d observations, specification %d' % (len(pi), len(ps))
@@ -602,14 +632,14 @@ def corr(case, impl, model):
         return None
     pi, pm = parse(impl), parse(model)
     for n, o in enumerate(pm):
-        if o['op'] not in ('G', 'H', 'M'):
+        if o['op'] not in ('G', 'H', 'E', 'M'):
             return 'model: %s at observation %d' % (o['op'], n)
     if len(pi) != len(pm):
         return 'observations: implementation %d / model %d (%s)' % (len(pi), len(pm), pi[-1]['op'] if pi else '')
     for n, (a, b) in enumerate(zip(pi, pm)):
-        if a['op'] not in ('G', 'H', 'M'):
+        if a['op'] not in ('G', 'H', 'E', 'M'):
             return 'implementation: %s at observation %d' % (a['op'], n)
-        if a['op'] in 'GH':
+        if a['op'] in 'GHE':
             hy = b.get('h')
             if hy and hy != '1111':
                 return ('observation %d: hypotheses of the theorems (wf, raw_wf, range_ok, order_ok) evaluate to %s on the '
@@ -629,6 +659,12 @@ def corr(case, impl, model):
                             % (n, sorted(b['m'])[:10], sorted(r)[:10]))
             d = b['m'] - a['m']
             if d: return 'observation %d: marked in the model, not in the implementation: %s' % (n, sorted(d)[:8])
+            if a['op'] == 'E':
+                # exact stack pass: nothing but the scripted words is scanned, so equality is demanded
+                d = a['m'] - b['m']
+                if d: return 'observation %d (exact stack pass): marked in the implementation, not in the model: %s' % (n, sorted(d)[:8])
+                d = a['a'] - b['a']
+                if d: return 'observation %d (exact stack pass): survives in the implementation, not in the model: %s' % (n, sorted(d)[:8])
             d = b['a'] - a['a']
             if d: return 'observation %d: survives in the model, not in the implementation: %s' % (n, sorted(d)[:8])
     return None
@@ -638,17 +674,19 @@ def nontrivial(case, impl):
     """some collection kept at least two nodes while at least one node had been reclaimed"""
     created = set(int(x) for x in re.findall(r'[NC](\d+)[A-Z=]', case))
     for o in parse(impl):
-        if o['op'] in 'GHM' and len(o.get('a', ())) >= 2 and len(created - o['a']) >= 1:
+        if o['op'] in 'GHEM' and len(o.get('a', ())) >= 2 and len(created - o['a']) >= 1:
             return True
     return False
 
 
 def split(case):
+    pre = ''
+    if case.startswith('@ '): pre, case = '@ ', case[2:]
     toks = case.split(' ')
-    return ('', toks) if len(toks) <= 4000 else ('', [case])       # huge cases are not shrunk
+    return (pre, toks) if len(toks) <= 4000 else (pre, [case])       # huge cases are not shrunk
 
 
-def join(pre, toks): return ' '.join(toks)
+def join(pre, toks): return pre + ' '.join(toks)
 
 
 def classify(case, impl, why):
@@ -661,11 +699,13 @@ def classify(case, impl, why):
 
 CORPUS = [
     'N1S T+1=1 K-1 G G',                                   # D16: reachable from TLS only
+    '@ N1S T+1=1 K-1 G G N2U I2,0=2 H M30 G',              # the same in a second thread (+ D17 witness)
     'N1R N2S P1.0=2 K-2 T+3=1 K-1 M40 G H',                # D16 through a Ref, threshold collections
     'N1U I1,0=1 G H',                                      # D17: self-referential heap Tuple
     'N1U N2U I1,0=2 I2,0=1 K-2 G K-1 G',                   # D17: cycle of two heap Tuples
     'N1A N2R I1,0=2 P2.0=1 K-2 N3B N4S P3.0=4 K-4 I1,0=3 N5R P5.0=3 I1,0=5 K-5 K-3 N6S P6.0=1 T+1=6 K-6 K-1 G H M30 G T-1 G H',
     'N1T N2S I1,5=2 K-2 N3E N4S I3,7=4 K-4 G H D1,5 D3,7 G H',
+    'N1Y N2S I1,2=2 K-2 N3Z N4R I3,4=4 K-4 N5S I3,5=5 K-5 G H D1,2 D3,4 G H',      # pointers held by Table / Tree KEYS
     'N1R! N2S P1.0=2 K-1 K-2 G H M100 G P1.0=0 G H',
     'N1U N2s N3S P2.0=3 I1,0=2 K-3 K-2 N4r N5R P4.0=5 N6u I6,0=4 I1,0=6 K-6 K-5 K-4 G H K-1 G',
 ]
@@ -713,17 +753,27 @@ def run(ctx):
     drv = ctx.build_driver('Mark')
     h = ctx.build_harness('gc_graph.c', whitebox='GC')
     env = dict(os.environ, H_TIMEOUT='10' if quick else '30')
+    tm = ctx.cov.setdefault('wall_split_s', {'generate': 0.0, 'implementation': 0.0, 'model': 0.0, 'specification': 0.0})
+
     def run_impl(cs):
+        t0 = time.time()
         out = ctx.run_lines(h, cs, env=env, timeout=3600)[1]
+        tm['implementation'] += time.time() - t0
         for i, l in enumerate(out):
             if 'TIMEOUT' in l and len(cs) > 1:
                 # a loaded machine must not look like a hanging collector: once more, alone, with a long limit
                 out[i] = ctx.run_lines(h, [cs[i]], env=dict(os.environ, H_TIMEOUT='120'), timeout=3600)[1][0]
                 ctx.cov['timeouts_rerun'] = ctx.cov.get('timeouts_rerun', 0) + 1
         return out
-    run_model = lambda cs: ctx.run_lines(drv, cs, args=['model'], timeout=3600)[1]
+    def run_model(cs):
+        t0 = time.time()
+        out = ctx.run_lines(drv, cs, args=['model'], timeout=3600)[1]
+        tm['model'] += time.time() - t0
+        return out
     def run_spec(cs):
+        t0 = time.time()
         out = ctx.run_lines(drv, cs, args=['spec'], timeout=3600)[1]
+        tm['specification'] += time.time() - t0
         if len(cs) > 1: SPEC.clear()
         SPEC.update(zip(cs, out))
         return out
@@ -743,9 +793,10 @@ def run(ctx):
     bad = [c for c in corpus if not valid_script(c)]
     if bad: raise RuntimeError('corpus case is not a valid program: ' + bad[0][:200])
     feed(d, corpus, 'corpus')
-    n = 500 if quick else 10000
+    n = 1500 if quick else 10000
     size = 200 if quick else 5000
     cases = []
+    t0 = time.time()
     for i in range(n):
         if quick: sz = ctx.rng.choice([6, 12, 25, 60, size])
         else: sz = size if i % 800 == 0 else ctx.rng.choice([6, 12, 25, 60, 200, 200, 600])     # 13 graphs of up to 5000 nodes
@@ -755,6 +806,7 @@ def run(ctx):
             for kinds in ('R', 'RS', 'RSALTEU'):
                 # a link through a container costs several C frames: keep those chains well below the stack limit (F1)
                 cases.append(gen_chain(ctx.rng, min(L, 5000) if len(kinds) > 2 else L, kinds))
+    tm['generate'] = round(time.time() - t0, 1)
     # self-test of the generators: a sample of the generated scripts is replayed by the independent validity checker
     small = [c for c in cases if c.count(' ') < 500][:300]
     bad = [c for c in small if not valid_script(c)]
@@ -803,7 +855,7 @@ def stats(ctx, d, cases):
     sample = cases[:200]
     if not sample: return
     il, sl = d.run_impl(sample), d.run_spec(sample)
-    tot = {'G': [0, 0, 0, 0], 'H': [0, 0, 0, 0]}       # observations, exact, reachable nodes, retained-unreachable nodes
+    tot = {'G': [0, 0, 0, 0], 'H': [0, 0, 0, 0], 'E': [0, 0, 0, 0]}       # observations, exact, reachable nodes, retained-unreachable nodes
     for c, i, s in zip(sample, il, sl):
         roots = set(int(x) for x in re.findall(r'N(\d+)[A-Z]!', c))
         for a, b in zip(parse(i), parse(s)):
